@@ -152,7 +152,7 @@ func (r *Report) c16Probe(g *gen.G, nl *sbom.NodeList) *sbom.Node {
 		if p.Hashes == nil {
 			p.Hashes = map[int32]string{}
 		}
-		p.Hashes[int32(1+g.Int(4))] = gen.Pick(g, hashVals)
+		p.Hashes[int32(1+g.Int(2))] = gen.Pick(g, []string{"aa", "aa", "bb", ""})
 	}
 	if g.Chance(0.2) {
 		p.Hashes = nil
@@ -185,15 +185,15 @@ func c16List(g *gen.G, unique bool) *sbom.NodeList {
 		}
 		if g.Chance(0.7) {
 			nd.Hashes = map[int32]string{}
-			k := 1 + g.Int(3)
+			k := 1 + g.Int(2)
 			for j := 0; j < k; j++ {
-				nd.Hashes[int32(1+g.Int(4))] = gen.Pick(g, hashVals)
+				nd.Hashes[int32(1+g.Int(2))] = gen.Pick(g, []string{"aa", "aa", "aa", "bb", ""})
 			}
 		}
 		if g.Chance(0.6) {
 			nd.Identifiers = map[int32]string{}
 			if g.Chance(0.8) {
-				nd.Identifiers[1] = gen.Pick(g, []string{"pkg:npm/foo@1.0", "pkg:npm/bar@2.0", "pkg:/npm/odd@1", "pkg:golang/x@1", ""})
+				nd.Identifiers[1] = gen.Pick(g, []string{"pkg:npm/foo@1.0", "pkg:npm/foo@1.0", "pkg:npm/bar@2.0", "pkg:/npm/odd@1", "pkg:golang/x@1", ""})
 			}
 			if g.Chance(0.4) {
 				nd.Identifiers[int32(2+g.Int(3))] = gen.Pick(g, []string{"v1", "v2"})
